@@ -115,6 +115,24 @@ def check_pairs_and_keys(prog, rep, tier):
                                 'key %r is written from self.%s but restored into .%s: the '
                                 'loaded object differs from the saved one' %
                                 (key[1], val.attr, target.attr), sf.lineno)
+        # presence guards of the reader must test something the writer can write
+        allw_k = set()
+        for w in W:
+            allw_k |= set(w.written)
+        if not any(w.wildcard or w.dynamic for w in W):
+            guards = set()
+            for r in R:
+                guards |= r.present | r.absent
+            for kind, key in sorted(guards):
+                rep.instance('HDF5-guard', {'class': q, 'guard': [kind, key]})
+                other = ('a' if kind == 'd' else 'd', key)
+                if (kind, key) not in allw_k and other in allw_k:
+                    rep.violation(
+                        'HDF5-guard', lo.module, ql, 'guard-kind:%s:%s' % (kind, key),
+                        '%s tests for %s %r, but %s writes %r as %s: the test is never true, '
+                        'the saved value is silently ignored' %
+                        (ql, 'attribute' if kind == 'a' else 'dataset/group', key, qs, key,
+                         'an attribute' if other[0] == 'a' else 'a dataset/group'), lf.lineno)
         # keys written but never read by the paired reader (information only)
         allw = set()
         for w in W:
@@ -518,6 +536,46 @@ def check_dispatch(prog, rep):
                                       '%s loads its content before memorizing the container: a '
                                       'self-referential container recurses forever / loses the '
                                       'cycle' % st.name, s.lineno)
+    # memo must hold the object that is returned: memorize_load() is a setdefault and cannot
+    # replace an earlier entry; after re-binding the object the entry must be overwritten
+    ml = m.func('Hdf5Loader.memorize_load')
+    is_setdefault = 'setdefault' in unparse(ml)
+    for st in loader.body:
+        if not (isinstance(st, ast.FunctionDef) and st.name.startswith('load_')):
+            continue
+        q = 'Hdf5Loader.' + st.name
+        events = []
+        for n in body_nodes(st):
+            if isinstance(n, ast.Call) and dotted(n.func) == 'self.memorize_load' and \
+                    len(n.args) == 2 and isinstance(n.args[1], ast.Name):
+                events.append((n.lineno, 'memo', n.args[1].id, n))
+            elif isinstance(n, ast.Assign) and isinstance(n.targets[0], ast.Subscript) and \
+                    dotted(n.targets[0].value) == 'self.memo_load' and isinstance(
+                        n.value, ast.Name):
+                events.append((n.lineno, 'overwrite', n.value.id, n))
+            elif isinstance(n, ast.Assign) and isinstance(n.targets[0], ast.Name):
+                events.append((n.lineno, 'bind', n.targets[0].id, n))
+        events.sort(key=lambda e: e[0])
+        memo_of = {}
+        version = {}
+        for ln, kind, name, node in events:
+            if kind == 'bind':
+                version[name] = version.get(name, 0) + 1
+            elif kind == 'overwrite':
+                memo_of['v'] = (name, version.get(name, 0))
+            elif kind == 'memo':
+                rep.instance('HDF5-memo-version', {'function': q, 'call': unparse(node)})
+                if 'v' in memo_of and is_setdefault and memo_of['v'] != (
+                        name, version.get(name, 0)):
+                    rep.violation(
+                        'HDF5-memo-version', m, q, 'ineffective-rememorize:' + name,
+                        '`%s` comes after an earlier memo entry for the same group, but '
+                        'memorize_load() is a setdefault: the memo keeps the earlier object (%s, '
+                        're-bound since), so later references to this group load a different '
+                        'object than the one returned' % (unparse(node), memo_of['v'][0]),
+                        node.lineno)
+                elif 'v' not in memo_of:
+                    memo_of['v'] = (name, version.get(name, 0))
     # load() consults memo before dispatch
     ld = m.func('Hdf5Loader.load')
     rep.instance('HDF5-memo-load', {'function': 'Hdf5Loader.load'})
